@@ -162,7 +162,7 @@ def sym_cases(prints, quick, rng):
         out.append(mk(cid, text, which, kind="sym", syms=o["syms"], toks=True, pred={"sqf": sorted(o["ds"]) + ([o["os"]] if o["ds"] else []), "cfg": sorted(o["dc"]) + ([o["oc"]] if o["dc"] else [])}))
         # the same bytes inside a config value, and at the end of a heap-allocated buffer of the parsers
         # (strings < 16 bytes live inside the std::string object, where the sanitizer sees no over-read)
-        if L <= 2 or rng.random() < (0.06 if quick else 0.1):
+        if L <= 2 or rng.random() < (0.06 if quick else 0.03):
             var.append(mk(cid + "w", "class A { x = " + text + "; };", CFG, tag="wrapped", origin="sym-in-config-value"))
             var.append(mk(cid + "v", "g = [" + text + "];", SQF, tag="wrapped", origin="sym-in-sqf-array"))
             var.append(mk(cid + "p", " " * 17 + text, ["sqfparse", "cfgparse", "pp"], tag="padded", origin="sym-padded"))
@@ -336,9 +336,9 @@ def special_cases(quick):
 
 def scale_families(quick):
     """families of inputs of growing size for TimeProportional: (family, front end, f(n) -> text, n)"""
-    n = 500 if quick else 2000
+    n = 500 if quick else 1000
     m = 5000 if quick else 20000
-    h = 2500 if quick else 20000          # families whose members are slow already
+    h = 2500 if quick else 5000           # families whose members are slow already
     fams = [
         ("nested-array", "sqfparse", lambda k: "a = " + "[" * k + "1" + "]" * k, n),
         ("nested-code", "sqfparse", lambda k: "a = " + "{" * k + "1" + "}" * k, n),
@@ -496,7 +496,7 @@ def run(rep, tier, seed, replay):
     rep.rule = ("every symbol string <= Depth over the 21-symbol alphabet of Lex_MC (a sample also wrapped into a config value / an SQF array and padded), every macro and include graph "
                 "over 2 names with bodies <= 2 items (object-like and function-like), every prefix at a token boundary and every single-token mutation (delete, duplicate, replace, "
                 "unbalance, cut inside string/comment/directive/macro call) of the first 40 lines of tests/sqf/*.sqf, tests/config.cpp, tests/preprocess/*.sqf, generated preprocessor "
-                "sources and three hand-written inputs (seeded sample in the quick tier), stray directives, cut macro calls, nesting depth 200/600 (thorough 2000; quick reaches 2000 in "
+                "sources and three hand-written inputs (quick: 3 seeded positions per mutation kind and input; thorough: all positions, 40 per kind for the test scripts), stray directives, cut macro calls, nesting depth 200/600 (thorough 2000; quick reaches 2000 in "
                 "the timing families), runs of 2000 (20000) units, every single byte in 11 contexts; distinct by (text, front ends); non-trivial = text of >= 2 bytes")
     design = None
     scale_todo = []
@@ -544,11 +544,13 @@ def run(rep, tier, seed, replay):
         # ---- 2. corpus: prefixes and single-token mutations, special inputs
         sampled = list(variants)
         seen = set()
-        per_op = 3 if quick else None
         n = 0
         for name, text, which in corpus(rng, quick):
             sampled.append(mk("b%d" % n, text, which, tag="valid", origin=name, ops="full"))
             n += 1
+            # thorough: every prefix / mutation of the small inputs (config.cpp, tests/preprocess, generated and hand-written ones),
+            # 40 positions per mutation kind of each test script
+            per_op = 3 if quick else (40 if name.endswith(".sqf") and not name.startswith("pp/") else None)
             for tg, m in mutations(name, text, rng, per_op):
                 key = (m, tuple(which))
                 if key in seen:
@@ -658,7 +660,7 @@ def run(rep, tier, seed, replay):
 
         # ---- 3c. sampled inputs, batched; a (chain, class) that failed SATURATE times is steered around
         saturated, crash_count, steered = set(), {}, 0
-        bsize = 2500
+        bsize = 2500 if quick else 10000
         for bn in range(0, len(sampled), bsize):
             todo = []
             for c in sampled[bn:bn + bsize]:
@@ -765,6 +767,10 @@ def run(rep, tier, seed, replay):
                     if x.get("famidx") == k:
                         todo.append(("%s_%s" % (xid, x["id"]), "rel", x, x["which"]))
                 continue
+            if c.get("once"):                            # a member of a timing family that did not come back: same build, same budget
+                c.update({"id": xid, "which": [pl["fe"]]})
+                todo.append((xid, "rel1", c, [pl["fe"]]))
+                continue
             c.update({"id": xid, "which": [pl["fe"]], "budget_ms": max(CONFIRM_BUDGET_MS, 2 * c.get("budget_ms", 0)), "ops": "full"})
             todo.append((xid, "asan", c, [pl["fe"]]))
     confirmed = {}
@@ -775,7 +781,7 @@ def run(rep, tier, seed, replay):
         finally:
             stack(default_stack)
         ex_rel = drive([(x, c, w) for x, k, c, w in todo if k == "rel"], wdir, "c10confirmrel", kind="rel")
-        ex2 = list(ex_asan)
+        ex2 = list(ex_asan) + drive([(x, c, w) for x, k, c, w in todo if k == "rel1"], wdir, "c10confirmrel1", kind="rel")
         for xid, (k, c) in pairs.items():
             o2 = {x[0]: e for x in ex_rel for e in x[2] if e["e"] == "Obs" and x[0].startswith(xid + "_")}
             if len(o2) == 2:
